@@ -58,9 +58,23 @@ fn trailer_ok(bytes: &[u8]) -> Result<(), String> {
         return Err(format!("trailing checksum {:#010x} but reference masked CRC-32C of the preceding {} bytes is {:#010x}", got, n - 4, want));
     }
     match gate(bytes) {
-        Gate::VerifyOk => Ok(()),
-        g => Err(format!("builder output does not pass verify(): {:?}", g)),
+        Gate::VerifyOk => {}
+        g => return Err(format!("builder output does not pass verify(): {:?}", g)),
     }
+    // the same bytes as an interior slice at every offset 1..15 from a 16-byte boundary
+    if n <= 70_000 {
+        let mut big = vec![0u8; n + 32];
+        let base = (16 - (big.as_ptr() as usize % 16)) % 16;
+        for off in 1..16usize {
+            let o = base + off;
+            big[o..o + n].copy_from_slice(bytes);
+            match gate(&big[o..o + n]) {
+                Gate::VerifyOk => {}
+                g => return Err(format!("builder output does not pass verify() when it starts {} bytes past a 16-byte boundary: {:?}", off, g)),
+            }
+        }
+    }
+    Ok(())
 }
 
 /// Every single-byte mutant (255 values per position) and every burst.
@@ -219,7 +233,7 @@ pub fn replay(case: &Value) -> Result<String, String> {
 pub fn plan(tier: Tier) -> Plan {
     let mut p = Plan::new("C08", "model_checking");
     let thorough = tier.thorough();
-    p.rule = "(a) every single-byte mutant (every position x all 255 other values) and every 2-4 byte burst (xor masks {01,80,ff} per byte) of every FST built from subsets of U_ab3 with <= 3 keys (thorough: <= 5) plus fan-out FSTs: 'opens and verify()==Ok' is the violation, also when a reader opened on the intact file is handed the mutant through map_data (9 of the 255 values per position); (b) the trailing 4 bytes of every builder output (all subsets of U_ab3/U_abc2/U_raw2 x patterns, fan-out families, single-key ladders giving every file length 37..4150 and 150 lengths around each of 2^13..2^17) equal an independent bitwise masked CRC-32C; (c) through hook H3 every 2-cut and 3-cut of buffers of length 0..64 (3 contents) and cuts at 0,1,15,16,17,31,32,33 from either end for lengths up to 4096; non-trivial = mutants + chunkings with >= 2 non-empty chunks".into();
+    p.rule = "(a) every single-byte mutant (every position x all 255 other values) and every 2-4 byte burst (xor masks {01,80,ff} per byte) of every FST built from subsets of U_ab3 with <= 3 keys (thorough: <= 5) plus fan-out FSTs: 'opens and verify()==Ok' is the violation, also when a reader opened on the intact file is handed the mutant through map_data (9 of the 255 values per position); (b) the trailing 4 bytes of every builder output (all subsets of U_ab3/U_abc2/U_raw2 x patterns, fan-out families, single-key ladders giving every file length 37..4150 and 150 lengths around each of 2^13..2^17) equal an independent bitwise masked CRC-32C, and verify() passes at every start offset 1..15 from a 16-byte boundary; (c) through hook H3 every 2-cut and 3-cut of buffers of length 0..64 (3 contents) and cuts at 0,1,15,16,17,31,32,33 from either end for lengths up to 4096; non-trivial = mutants + chunkings with >= 2 non-empty chunks".into();
     p.assumptions = vec![
         "independent reference: bit-by-bit reflected CRC-32C (0x82F63B78), validated on the RFC 3720 vector, rotate-right-15 + 0xA282EAD8 mask".into(),
         "chunking by a sink: policy sinks (cap 1..16, Interrupted before every call) here; the full answer-schedule space is C07's".into(),
